@@ -550,7 +550,17 @@ pub fn run(ctx: &mut Ctx) {
             ctx.op(name);
             let r = catch(|| match entry {
                 0 => decode_slice(text.as_bytes()).map_err(|e| e.to_string()),
-                1 => decode(text.as_bytes()).map_err(|e| e.to_string()),
+                1 => {
+                    // the reader entry point sees the bytes in pieces: either one read, or random short
+                    // reads, or a boundary exactly at the end of the junk header
+                    let hlen = doc.header.as_ref().map_or(0, String::len);
+                    let sched: Vec<usize> = match rng.below(3) {
+                        0 => vec![],
+                        1 if hlen > 0 => vec![hlen, usize::MAX],
+                        _ => (0..rng.range_usize(1, 6)).map(|_| rng.range_usize(1, 64)).collect(),
+                    };
+                    decode(super::c12::Chunked::new(text.as_bytes(), &sched)).map_err(|e| e.to_string())
+                }
                 _ => SourceMap::from_slice(text.as_bytes()).map(DecodedMap::Regular).map_err(|e| e.to_string()),
             });
             let data = || json!({"text": text, "entry": name});
